@@ -79,6 +79,7 @@ type Summary struct {
 	WallS        float64        `json:"wall_s"`
 	Exhausted    bool           `json:"exhausted"`
 	Problems     []string       `json:"problems"`
+	AggSig       string         `json:"agg_sig"`
 	ReplayOK     bool           `json:"replay_ok"`
 	ReplayMsg    string         `json:"replay_msg"`
 }
@@ -117,8 +118,13 @@ type knownFinding struct {
 	Commit      string `json:"commit,omitempty"`
 }
 
+var cleanupHook func()
+
 func die2(f string, a ...any) {
 	fmt.Fprintf(os.Stderr, "check: "+f+"\n", a...)
+	if cleanupHook != nil {
+		cleanupHook()
+	}
 	os.Exit(2)
 }
 
@@ -226,7 +232,11 @@ func runWorker(bin string, job *Job, scratch string, timeout time.Duration) (*Su
 	}
 	cmd := exec.Command(bin, "-test.run", "^TestWorker$", "-test.timeout", "0", "-test.v")
 	cmd.Dir = scratch
-	cmd.Env = append(os.Environ(), "VERIF_JOB="+jobFile, "GOMAXPROCS=2")
+	gmp := os.Getenv("VERIF_GOMAXPROCS")
+	if gmp == "" {
+		gmp = "2"
+	}
+	cmd.Env = append(os.Environ(), "VERIF_JOB="+jobFile, "GOMAXPROCS="+gmp)
 	var outBuf strings.Builder
 	cmd.Stdout = &outBuf
 	cmd.Stderr = &outBuf
@@ -408,6 +418,7 @@ func main() {
 	replayFile := flag.String("replay", "", "replay file to re-execute")
 	verbose := flag.Bool("v", false, "verbose")
 	keep := flag.Bool("keep", false, "keep the scratch directory")
+	selftest := flag.Bool("selftest", false, "determinism self-test: same seeds in separate processes at GOMAXPROCS 1/4/16")
 	if len(os.Args) < 2 {
 		die2("usage: check <property> [flags]")
 	}
@@ -449,7 +460,12 @@ func main() {
 		}
 	}
 	defer cleanup()
+	cleanupHook = cleanup
 	bin := build(sp, scratch, *verbose)
+	if *selftest {
+		determinismSelfTest(bin, scratch, sp, prop, *tier, seed)
+		return
+	}
 
 	if *replayFile != "" {
 		abs, _ := filepath.Abs(*replayFile)
@@ -704,5 +720,49 @@ func warm() {
 		build(sp, scratch, false)
 		os.RemoveAll(scratch)
 		fmt.Printf("warm: harness %s built in %.1fs\n", h, time.Since(t0).Seconds())
+	}
+}
+
+// determinismSelfTest runs the same seed ranges in separate processes at
+// different GOMAXPROCS values and compares the aggregate signatures.
+func determinismSelfTest(bin, scratch string, sp *spec, prop, tier string, seed uint64) {
+	const nSeeds, runsPer = 32, 25
+	type key struct{ s int }
+	ref := map[int]string{}
+	bad := 0
+	total := 0
+	var mu sync.Mutex
+	for round, gmp := range []string{"1", "4", "16", "2"} {
+		os.Setenv("VERIF_GOMAXPROCS", gmp)
+		var wg sync.WaitGroup
+		sem := make(chan struct{}, 16)
+		for i := 0; i < nSeeds; i++ {
+			wg.Add(1)
+			sem <- struct{}{}
+			go func(i int) {
+				defer wg.Done()
+				defer func() { <-sem }()
+				job := &Job{Mode: "explore", Harness: sp.Harness, Property: prop, Tier: tier, Seed: seed + uint64(i)*7919, First: 0, Stride: 1, Count: runsPer,
+					Out: filepath.Join(scratch, fmt.Sprintf("self-%d-%d.json", round, i)), ReplayDir: filepath.Join(scratch, "replays-self"), MaxFail: 100}
+				s, err := runWorker(bin, job, scratch, 15*time.Minute)
+				if err != nil {
+					die2("%v", err)
+				}
+				mu.Lock()
+				defer mu.Unlock()
+				total += s.Runs
+				if r, ok := ref[i]; !ok {
+					ref[i] = s.AggSig
+				} else if r != s.AggSig {
+					bad++
+					fmt.Printf("DIVERGENCE: seed %d at GOMAXPROCS=%s: %s vs %s\n", job.Seed, gmp, s.AggSig, r)
+				}
+			}(i)
+		}
+		wg.Wait()
+	}
+	fmt.Printf("determinism self-test %s: %d seed ranges x 4 processes (GOMAXPROCS 1,4,16,2), %d runs, %d divergences\n", prop, nSeeds, total, bad)
+	if bad > 0 {
+		die2("nondeterminism detected")
 	}
 }
